@@ -34,6 +34,7 @@ func checkC17(c *Ctx) {
 	// (shared with C09)
 	rRotationOnlyRefreshed(c, "R17.7 rotation-written-only-by-the-refresh")
 	rWhoMayStartProbes(c, "R17.8 who-may-start-probing")
+	rHealthWaitsConcurrent(c, "R17.9 health-waits-run-concurrently")
 }
 
 // commandReach: functions a command handler runs synchronously: static calls, closure arguments,
@@ -426,4 +427,46 @@ func rWhoMayStartProbes(c *Ctx, rule string) {
 			c.ob(rule, "call "+fn.Name()+" ("+fname(fn)+") <- "+o, u.instr.Pos(), ok, false, "who may start probing: "+reason)
 		}
 	}
+}
+
+// R17.9 the health waits of one deploy run at the same time: each Target.WaitUntilHealthy of
+// LoadBalancer.WaitUntilHealthy is made from a goroutine launched for that target, so that N targets that never become
+// healthy cost one deploy timeout and not N of them ("deploy returns within deploy-timeout plus drain-timeout").
+func rHealthWaitsConcurrent(c *Ctx, rule string) {
+	c.floor(rule, 1)
+	lbw := c.method("LoadBalancer", "WaitUntilHealthy")
+	tw := c.method("Target", "WaitUntilHealthy")
+	launched := map[*ssa.Function]bool{}
+	for _, fn := range withAnon(lbw) {
+		for _, b := range fn.Blocks {
+			for _, in := range b.Instrs {
+				g, ok := in.(*ssa.Go)
+				if !ok {
+					continue
+				}
+				if mc, ok := g.Call.Value.(*ssa.MakeClosure); ok {
+					if f, ok := mc.Fn.(*ssa.Function); ok {
+						launched[f] = true
+					}
+				} else if f := g.Call.StaticCallee(); f != nil {
+					launched[f] = true
+				}
+			}
+		}
+	}
+	n := 0
+	for _, u := range c.usesOfFunc(tw) {
+		if outer(u.in) != lbw {
+			continue
+		}
+		n++
+		ok := u.kind == "go"
+		for f := u.in; f != nil && !ok; f = f.Parent() {
+			if launched[f] {
+				ok = true
+			}
+		}
+		c.ob(rule, "LoadBalancer.WaitUntilHealthy/per-target-wait-in-its-own-goroutine", u.instr.Pos(), ok, true, "a wait made in the command's own goroutine makes the targets wait one after the other: N timeouts instead of one")
+	}
+	c.ob(rule, "LoadBalancer.WaitUntilHealthy/waits-for-its-targets", lbw.Pos(), n >= 1, false, "")
 }
